@@ -359,6 +359,27 @@ def _job(rows):
     return tot, out, drift
 
 
+def negative_control():
+    """the audit must be able to say no: compile the queries against a schema
+    WITHOUT the policy while telling the audit that Mid carries one"""
+    st = S()
+    schema = build_schema([dict(ty='Holder', kind='allow_select')])
+    sn = st['sn']
+    table_to_type = {str(schema.get(sn.QualName('default', t)).id): t for t in TYPES}
+    flagged = 0
+    for text in ('select Mid', 'select Holder.many { name }', 'select count(Base)'):
+        ir = st['qlcompiler'].compile_ast_to_ir(
+            st['qlparser'].parse_query(text), schema,
+            options=st['qlcompiler'].CompilerOptions(modaliases={None: 'default'}))
+        tree = st['pgcompiler'].compile_ir_to_sql_tree(
+            ir, output_format=st['pgcompiler'].OutputFormat.NATIVE).ast
+        bad, seen = analyse(tree, table_to_type, {'Mid': ['Mid'], 'Leaf': ['Mid']})
+        flagged += bool(bad)
+    if flagged != 3:
+        raise lib.MachineryError('the SQL audit did not flag unfiltered reads in its '
+                                 f'negative control ({flagged}/3)')
+
+
 def replay(path, rep):
     d = json.load(open(path))['replay']
     S()
@@ -377,6 +398,7 @@ def run(tier, seed, rep):
     if set(QUERIES) != set(rows[0][1]):
         raise lib.MachineryError('query ids of Policies.tla and c07.QUERIES differ: '
                                  f'{sorted(set(QUERIES) ^ set(rows[0][1]))}')
+    negative_control()
     tot = [0, 0, 0]
     ndrift = 0
     with mp.Pool(lib.NCPU) as pool:
